@@ -57,6 +57,11 @@ def gen(rng, tier):
             new = {'logM1': rng.uniform(12.0, 14.2), 'alpha': rng.uniform(0.5, 1.5), 'logM_cut': rng.uniform(12.0, 13.6),
                    'sigma': rng.uniform(0.15, 0.9), 'alpha_s': rng.uniform(0.5, 1.5), 'ic': rng.uniform(0.2, 1.0)}[key]
             upd[t] = {key: new}
+        if rng.random() < 0.4:
+            # ... or an optional key given in the first call is left out in the second (its default applies again)
+            opt = [k for k in ('ic', 'Acent', 'Asat', 'Bcent', 'Bsat', 'Ccent', 'Csat') if k in c['tracers'][t]]
+            if opt:
+                upd.setdefault(t, {})[rng.choice(opt)] = None
     c['second_call'] = upd
     c['compiled'] = (tier == 'thorough' and rng.random() < 0.05)
     return c
@@ -180,8 +185,13 @@ def run(case):
         c4 = copy.deepcopy(c)
         for t, kv in case['second_call'].items():
             if t in shared:
-                shared[t].update(kv)
-                c4['tracers'][t].update(kv)
+                for k_, v_ in kv.items():
+                    if v_ is None:
+                        shared[t].pop(k_, None)
+                        c4['tracers'][t].pop(k_, None)
+                    else:
+                        shared[t][k_] = v_
+                        c4['tracers'][t][k_] = v_
         resB, excB, _ = H.run(lambda: HR.flatten(HR.call(G, c4, T, tracers=shared)), dict(s, seed=s.get('seed', 0) + 4))
         if excB is not None:
             violation(out, 'raises:' + type(excB).__name__, site + ':second-call', repr(excB)[:300])
